@@ -52,6 +52,9 @@ CONFIGS = [
     ("multi-both", dict(max_trade_count=2, max_live_trade_count=2, multi_order_trades=True), dict(reset_seconds=1.5, place_reset_seconds=1.5)),
     ("live2", dict(max_live_trade_count=2), dict(reset_seconds=1.5)),
     ("handicap-line", dict(max_live_trade_count=1), dict()),
+    # a limit of exactly 0 is a limit: nothing may be opened on the runner
+    ("live0", dict(max_live_trade_count=0), dict()),
+    ("trades0", dict(max_trade_count=0, max_live_trade_count=1), dict()),
 ]
 
 
